@@ -284,23 +284,28 @@ def scoping(ctx):
 # ---------------------------------------------------------------------------------------
 # P2b: a USE statement inside one module procedure is in effect there only
 # ---------------------------------------------------------------------------------------
-USE_O = [("implicit none", ()), ("use other, only: tmod", ("tmod",)), ("USE OTHER, ONLY: TOTHER", ("tother",)), ("use other", ("tmod", "tother"))]
+USE_O = [("implicit none", ()), ("use {o}, only: tmod", ("tmod",)), ("USE {O}, ONLY: TOTHER", ("tother",)), ("use {o}", ("tmod", "tother"))]
+# the other module is the project's own whatever it is called: also when named like a module FORD knows as external (mpi)
+OTHER_NAMES = ["other", "mpi"]
 USE_REFS = [("type(tmod) :: x", "tmod"), ("type(tother) :: x", "tother"), ("TYPE(TOther) :: X", "tother"), ("type(nowhere) :: x", "nowhere")]
 OWN_L = [(("integer :: d0", "integer :: d1", "integer :: d2"), False), (("type tlocal", "integer :: c", "end type tlocal"), True)]
 
 
-def _use_local_files(ua, ub, ra, rb, rz, oa):
-    return {"o.f90": ["module other", "type tmod", "integer :: c", "end type tmod", "type tother", "integer :: c", "end type tother", "end module other"],
+def _use_local_files(ua, ub, ra, rb, rz, oa, on="other"):
+    fill = lambda u: choice.apply(lambda u_, o_: u_.replace("{o}", o_).replace("{O}", o_.upper()), u, on)
+    ua, ub = fill(ua), fill(ub)
+    return {"o.f90": [choice.apply(lambda o_: "module " + o_, on), "type tmod", "integer :: c", "end type tmod", "type tother", "integer :: c", "end type tother",
+                      choice.apply(lambda o_: "end module " + o_, on)],
             "m.f90": ["module m", "type tmod", "integer :: c", "end type tmod", rz, "contains",
                       "subroutine sa()", ua, oa[0], oa[1], oa[2], ra, "end subroutine sa",
                       "subroutine sb()", ub, rb, "end subroutine sb",
                       "end module m"]}
 
 
-def use_local_rule(imported, name):
+def use_local_rule(imported, name, on="other"):
     """type designated for `name` in a scope that use-associates `imported` from module other and is hosted by module m"""
     if name in imported:
-        return ("other", name)
+        return (on, name)
     return ("m", "tmod") if name == "tmod" else None
 
 
@@ -342,12 +347,14 @@ def use_local(ctx):
         rb = CV.choice(E, "rb", USE_REFS)
         rz = CV.choice(E, "rz", USE_REFS)
         oa = CV.choice(E, "oa", OWN_L)
+        on = CV.choice(E, "on", OTHER_NAMES).concretize()   # a concrete name per path: entities are observed by their module's name
         h.state = (ua, ub, ra, rb, rz, oa)
-        p = parserh.project(_use_local_files(ua[0], ub[0], ra[0], rb[0], rz[0], oa[0]), **SETTINGS)
+        h.on = on
+        p = parserh.project(_use_local_files(ua[0], ub[0], ra[0], rb[0], rz[0], oa[0], on), **SETTINGS)
         obs = _observe2b(p)
         E.reachable("correlated")
-        want = {"sa.x": choice.apply(use_local_rule, ua[1], ra[1]),
-                "sb.x": choice.apply(use_local_rule, ub[1], rb[1]),
+        want = {"sa.x": choice.apply(use_local_rule, ua[1], ra[1], on),
+                "sb.x": choice.apply(use_local_rule, ub[1], rb[1], on),
                 "m.x": choice.apply(lambda n: use_local_rule((), n), rz[1])}
         h.want = want
         for k in want:
@@ -362,6 +369,7 @@ def use_local(ctx):
         seen.add(label)
         slots = [choice.value_in_model(m, x)[0] for x in A["state"]]
         slots[5] = list(slots[5])
+        slots.append(choice.value_in_model(m, A["on"]))
         exp = {k: (list(choice.value_in_model(m, v)) if choice.value_in_model(m, v) else None) for k, v in A["want"].items()}
         ctx.report(label, {"slots": slots, "expected": exp}, replay_use_local)
     if E.reached.get("correlated"):
